@@ -443,8 +443,12 @@ def judge(w, obs, twin, info, transient, fail, stats, what, on, pl):
     def gone(pos):      # permanently or possibly unavailable
         return (pos[0], pos[1]) in gone_sheets or pos[0] in bad_books
 
+    def surely_gone(pos):   # a transiently failing book may well be loaded
+        return (pos[0], pos[1]) in gone_sheets or (
+            pos[0] in bad_books and not transient)
+
     present = [i for i in range(n) if normal['c%d' % i] != MISSING and
-               not gone(tuple(w['cells'][i]['at']))]
+               not surely_gone(tuple(w['cells'][i]['at']))]
     # a cell the model did load must have a value (an error value at worst)
     for i in range(n):
         if normal['c%d' % i] == MISSING and obs.was_loaded(i) and \
@@ -479,6 +483,12 @@ def judge(w, obs, twin, info, transient, fail, stats, what, on, pl):
                 if not conds and not icpt and not sw:
                     direct_prop.add(i)
                     kinds.setdefault(i, set()).update(hit)
+    if transient:
+        # a cell OF a transiently failing book is itself an unresolved item
+        # for the references that met the fault (its node then holds #REF!)
+        for i in present:
+            if w['cells'][i]['at'][0] in bad_books:
+                direct_any.add(i)
     tainted = set()
     for i in present:
         if G.reach(i) & direct_any:
